@@ -67,6 +67,7 @@ def run(prog, rep, tier, cfg):
     NP = X.fn('notify_pledge_changed', CR)
     ns = [c for c in NP.calls if sendsmod.is_send(c)]
     rep.need('K5', 'notify_pledge_changed:send', len(ns) == 1, 'one UpdatePledgeTotal send expected', X.loc(NP))
+    sendsmod.exit_code_rule(X, rep, [sendsmod.SendSite(prog, c) for c in ns], {})
     for c in ns:
         X.arg_has('K10', 'notify:to-power', c, 1, ['K:STORAGE_POWER_ACTOR_ADDR'], 'notification goes to the power actor')
         X.arg_has('K10', 'notify:method', c, 2, ['K:UPDATE_PLEDGE_TOTAL_METHOD'], 'UpdatePledgeTotal')
